@@ -83,17 +83,17 @@ Print Assumptions C13_tie_publish_qos12.
    output queue and a transport that ACCEPTS writes, REFUSES them (BlockingIOError) or FAILS HARD (OSError: the
    connection is torn down inside the write) are modelled; events distinguish a packet
    HANDED to the connection from a packet WRITTEN; reconnect() drops what is still queued.
-   [no_fail ops]: the history contains no hard write failure ([OTransport TFail]). *)
+   Every theorem below quantifies over ALL conforming histories, hard write failures included. *)
 From PahoV Require Import Session2.Model Session2.Check Session2.Statements Session2.FifoProofs Session2.C13Transfer Session2.C13Proofs.
 
 (* publish() order of the hand-overs per connection *)
 Theorem C13_order_handed_with_blocking : forall c ops,
-  cfg_ok c = true -> conforming c ops = true -> no_fail ops = true -> c13_handed_ok c (optrace c ops) = true.
-Proof. exact c13_handed_calm_proved. Qed.
+  cfg_ok c = true -> conforming c ops = true -> c13_handed_ok c (optrace c ops) = true.
+Proof. exact c13_handed_proved. Qed.
 Print Assumptions C13_order_handed_with_blocking.
 
 (* publish() order of the writes per connection (FIFO queue) *)
 Theorem C13_order_written_with_blocking : forall c ops,
-  cfg_ok c = true -> conforming c ops = true -> no_fail ops = true -> c13_tx_ok c (optrace c ops) = true.
-Proof. exact c13_tx_calm_proved. Qed.
+  cfg_ok c = true -> conforming c ops = true -> c13_tx_ok c (optrace c ops) = true.
+Proof. exact c13_tx_proved. Qed.
 Print Assumptions C13_order_written_with_blocking.
